@@ -4,11 +4,19 @@
 //! and therefore has 'unsafe' code.
 
 use std::time::Duration;
+use std::sync::atomic::{AtomicUsize, Ordering};
 use thread_timer::ThreadTimer;
 
 use super::logic_var::*;
 
 static mut SUIRON_STOP_QUERY: bool = false;
+
+// Serial number of the most recently started (or cancelled) query timer.
+// A timer may only stop a query while its own serial number is still the
+// current one. ThreadTimer::cancel() can fail silently when the timer thread
+// is just about to start waiting; such a timer still fires later, and must
+// not stop whatever query happens to be running at that moment.
+static QUERY_TIMER_SERIAL: AtomicUsize = AtomicUsize::new(0);
 
 /// Create a timer with a timeout in milliseconds.
 ///
@@ -27,9 +35,14 @@ static mut SUIRON_STOP_QUERY: bool = false;
 /// ```
 pub fn start_query_timer(milliseconds: u64) -> ThreadTimer {
     unsafe { SUIRON_STOP_QUERY = false; }
+    let serial = QUERY_TIMER_SERIAL.fetch_add(1, Ordering::SeqCst) + 1;
     let timer = ThreadTimer::new();
     timer.start(Duration::from_millis(milliseconds),
-                move || { stop_query(); }).unwrap();
+                move || {
+                    if QUERY_TIMER_SERIAL.load(Ordering::SeqCst) == serial {
+                        stop_query();
+                    }
+                }).unwrap();
     return timer;
 } // start_query_timer()
 
@@ -45,6 +58,8 @@ pub fn start_query_timer(milliseconds: u64) -> ThreadTimer {
 /// cancel_timer(timer);
 /// ```
 pub fn cancel_timer(timer: ThreadTimer) {
+    // Invalidate the timer, in case it cannot be cancelled.
+    QUERY_TIMER_SERIAL.fetch_add(1, Ordering::SeqCst);
     match timer.cancel() {
         Ok(_) => {},
         Err(_) => {},
